@@ -1,4 +1,5 @@
 import StunVerif.Props.C07
+import StunVerif.Props.C07Codec
 #print axioms StunVerif.C07.delivered_auth
 #print axioms StunVerif.C07.forged_dropped
 #print axioms StunVerif.C07.forged_equiv
@@ -7,3 +8,7 @@ import StunVerif.Props.C07
 #print axioms StunVerif.C07.genuine_after_forged
 #print axioms StunVerif.C07.plain_accepts
 #print axioms StunVerif.C07.had_creds_fixed
+#print axioms StunVerif.C07.had_creds_def
+#print axioms StunVerif.C07.sealed_response_delivered
+#print axioms StunVerif.C07.unsigned_response_dropped
+#print axioms StunVerif.C07.non_response_incoming
